@@ -876,6 +876,54 @@ func (l *orderLoop) perElementTarget(v ssa.Value, d int) bool {
 }
 
 // isOwnKey: v is the key of this map-range loop
+// projectionOfElement: v is the current element or a field of it (read through field selections, type assertions and
+// loads only): msg.strFile, msg.returnSecond
+func (l *orderLoop) projectionOfElement(v ssa.Value, d int) bool {
+	if v == nil || d > 8 {
+		return false
+	}
+	if l.roots[v] {
+		return true
+	}
+	switch x := v.(type) {
+	case *ssa.Field:
+		return l.projectionOfElement(x.X, d+1)
+	case *ssa.FieldAddr:
+		return l.projectionOfElement(x.X, d+1)
+	case *ssa.UnOp:
+		if x.Op == token.MUL {
+			return l.projectionOfElement(x.X, d+1)
+		}
+	case *ssa.TypeAssert:
+		return l.projectionOfElement(x.X, d+1)
+	case *ssa.Extract:
+		return l.projectionOfElement(x.Tuple, d+1)
+	case *ssa.Call:
+		// recv.Interface(): the value carried by a reflect.Select result
+		if x.Call.IsInvoke() || len(x.Call.Args) == 0 {
+			return false
+		}
+		if g := x.Call.StaticCallee(); g != nil && g.Pkg != nil && g.Pkg.Pkg.Path() == "reflect" && g.Name() == "Interface" {
+			return l.projectionOfElement(x.Call.Args[0], d+1)
+		}
+	case *ssa.Alloc:
+		// a local copy of the element (projectChan := recv.Interface().(T)): every store into it is a projection
+		if refs := x.Referrers(); refs != nil {
+			n := 0
+			for _, r := range *refs {
+				if st, ok := r.(*ssa.Store); ok && st.Addr == ssa.Value(x) {
+					n++
+					if !l.projectionOfElement(st.Val, d+1) {
+						return false
+					}
+				}
+			}
+			return n > 0
+		}
+	}
+	return false
+}
+
 func (l *orderLoop) isOwnKey(v ssa.Value) bool {
 	ex, ok := v.(*ssa.Extract)
 	return ok && l.roots[ex.Tuple] && ex.Index == 1
@@ -999,6 +1047,147 @@ func (e *detEngine) keyedWrites(l *orderLoop) [][4]interface{} {
 	return out
 }
 
+
+// orderInsensitiveMerge: the value stored under the key is the entry's previous value merged with the element in a way
+// that does not depend on the order of the elements, and the entry created for the first element of a key is brought
+// to the same result by those merges:
+//
+//	if e, ok := m[k]; ok { e.List = append(e.List, x); if less(x.f, e.f) { e.f = x.f }; m[k] = e } else { m[k] = T{f: x.f, List: [x]} }
+//
+// read-modify-write: the stored struct local is initialised from m[k] (same map, same key) and changed only by appends
+// to its slice fields (accumulation; the order of a list is not part of the answer, C09 "not covered") and by stores
+// that sit behind a comparison involving the old value of the very field they overwrite (selection by a content
+// order, min / max). creation: every field of the fresh struct that is set from the loop element is one the
+// read-modify-write sibling of the same map and key merges in one of those two ways.
+func (e *detEngine) orderInsensitiveMerge(l *orderLoop, obj, key, val ssa.Value) bool {
+	structLocal := func(v ssa.Value) *ssa.Alloc {
+		ld, ok := v.(*ssa.UnOp)
+		if !ok || ld.Op != token.MUL {
+			return nil
+		}
+		al, ok := ld.X.(*ssa.Alloc)
+		if !ok {
+			return nil
+		}
+		if _, isStruct := al.Type().Underlying().(*types.Pointer).Elem().Underlying().(*types.Struct); !isStruct {
+			return nil
+		}
+		return al
+	}
+	// fields of the struct local al and how they are written: "append", "cmp" (compare-and-replace), "elem" (set from the
+	// loop element, unconditionally), "other"
+	fieldWrites := func(al *ssa.Alloc) (map[int]string, bool) {
+		out := map[int]string{}
+		fromEntry := false
+		if al.Referrers() == nil {
+			return out, false
+		}
+		for _, r := range *al.Referrers() {
+			switch x := r.(type) {
+			case *ssa.Store:
+				if x.Addr == ssa.Value(al) {
+					// whole-struct initialisation: from m[k]?
+					v := x.Val
+					if ex, ok := v.(*ssa.Extract); ok {
+						v = ex.Tuple
+					}
+					if lk, ok := v.(*ssa.Lookup); ok && canon(lk.X) == canon(obj) && canon(lk.Index) == canon(key) {
+						fromEntry = true
+					}
+				}
+			case *ssa.FieldAddr:
+				if x.Referrers() == nil {
+					continue
+				}
+				for _, rr := range *x.Referrers() {
+					st, ok := rr.(*ssa.Store)
+					if !ok || st.Addr != ssa.Value(x) {
+						continue
+					}
+					kind := "other"
+					if appendCall(st.Val) != nil {
+						kind = "append"
+					} else {
+						// behind a comparison that reads the old value of this field?
+						for _, ed := range dominatingEdges(st.Block()) {
+							var ops [8]*ssa.Value
+							if ci, ok := ed.cond.(ssa.Instruction); ok {
+								for _, op := range ci.Operands(ops[:0]) {
+									if op == nil || *op == nil {
+										continue
+									}
+									if ld, ok := (*op).(*ssa.UnOp); ok && ld.Op == token.MUL {
+										if fa2, ok := ld.X.(*ssa.FieldAddr); ok && fa2.X == ssa.Value(al) && fa2.Field == x.Field {
+											kind = "cmp"
+										}
+									}
+									// struct field passed by value to a comparison method: IsBeforeLoc(symbols.Loc)
+									if fv, ok := (*op).(*ssa.UnOp); ok && fv.Op == token.MUL {
+										if fa2, ok := fv.X.(*ssa.FieldAddr); ok && fa2.X == ssa.Value(al) && fa2.Field == x.Field {
+											kind = "cmp"
+										}
+									}
+								}
+							}
+						}
+						if kind == "other" && l.dep(st.Val) && canon(st.Val) != canon(key) {
+							kind = "elem" // (the key itself is the same for every writer of this entry)
+						}
+					}
+					if old, had := out[x.Field]; !had || old == "append" || kind == "other" || kind == "elem" {
+						out[x.Field] = kind
+					}
+				}
+			}
+		}
+		return out, fromEntry
+	}
+	al := structLocal(val)
+	if al == nil {
+		return false
+	}
+	w, fromEntry := fieldWrites(al)
+	if fromEntry {
+		for _, k := range w {
+			if k != "append" && k != "cmp" {
+				return false
+			}
+		}
+		return true
+	}
+	// creation: find the read-modify-write sibling for the same map and key in this loop
+	var sib map[int]string
+	for _, w2 := range e.keyedWrites(l) {
+		o2, k2, v2 := w2[0].(ssa.Value), w2[1].(ssa.Value), w2[2].(ssa.Value)
+		if canon(o2) != canon(obj) || canon(k2) != canon(key) || v2 == val {
+			continue
+		}
+		if al2 := structLocal(v2); al2 != nil {
+			if ws, ok := fieldWrites(al2); ok {
+				sib = ws
+			}
+		}
+	}
+	if sib == nil {
+		return false
+	}
+	for f, k := range w {
+		switch k {
+		case "elem", "append":
+			if sk := sib[f]; sk != "append" && sk != "cmp" {
+				return false // set from the first element seen and never merged afterwards: first writer wins
+			}
+		case "other", "cmp":
+			// not element-dependent (constants, values of the key) or itself guarded
+		}
+	}
+	for _, sk := range sib {
+		if sk != "append" && sk != "cmp" {
+			return false
+		}
+	}
+	return true
+}
 
 // lookedUpByOwnKey: obj is the result of a module function called with this loop's own key, and every pointer that
 // function returns is read out of a map entry selected by that parameter (m[k], an element of m[k], a field of it):
@@ -1456,6 +1645,14 @@ func (e *detEngine) analyseLoop(l *orderLoop) (taintLocal []ssa.Value, taintFiel
 		}
 		if _, isC := key.(*ssa.Const); isC {
 			continue
+		}
+		if (l.kind == "pool" || l.kind == "chan") && l.projectionOfElement(key, 0) && l.projectionOfElement(val, 0) {
+			// the result of a task stored under the task's own name (msg.strFile -> msg.result): every task writes its
+			// own entry (distinct tasks carry distinct names: "distinct elements write distinct objects")
+			continue
+		}
+		if e.orderInsensitiveMerge(l, obj, key, val) {
+			continue // entry accumulated / merged by a content order: the same in any order (see orderInsensitiveMerge)
 		}
 		add("keyed-write", pos, "stores an element-dependent value under a key that other iterations may produce too: which value the key ends up with depends on the iteration order")
 	}
